@@ -1,6 +1,7 @@
 package simrt
 
 import (
+	"errors"
 	"strconv"
 	"bytes"
 	"encoding/json"
@@ -609,6 +610,23 @@ func checkC11Client(k *Kernel, cov *Coverage) *Violation {
 			if wireStatus >= 400 {
 				return &Violation{Class: "success-from-error-status", Signature: sig("success-from-error-status", fmt.Sprintf("status=%d", wireStatus)),
 					Detail: fmt.Sprintf("op %d %s: upstream answered %d yet the client returned success", c.Op.ID, c.Op.RPC, wireStatus)}
+			}
+		}
+		if c.Err != nil && len(c.Conns) > 0 {
+			// a typed error (violation list / message) is a claim about what the server said: it
+			// may only be built from an error response that arrived completely
+			var tve *sebufhttp.ValidationError
+			var te *sebufhttp.Error
+			if errors.As(c.Err, &tve) || errors.As(c.Err, &te) {
+				last := c.Conns[len(c.Conns)-1]
+				verb := "POST"
+				if r := k.W.RPC(c.Op.RPC); r != nil {
+					verb = r.Verb
+				}
+				if complete, _ := last.s2c.responseComplete(verb); !complete && last.s2c.total > 0 {
+					return &Violation{Class: "typed-error-from-incomplete-response", Signature: sig("typed-error-from-incomplete-response", ""),
+						Detail: fmt.Sprintf("op %d %s: link delivered %d of %d response bytes (%s) yet the client returned the typed error %T %v", c.Op.ID, c.Op.RPC, last.s2c.delivered, last.s2c.total, connFault(last), c.Err, c.Err)}
+				}
 			}
 		}
 		out := "err"
